@@ -10,9 +10,11 @@ package main
 
 import (
 	"encoding/hex"
+	"encoding/json"
 	"flag"
 	"fmt"
 	"os"
+	"path/filepath"
 	"runtime"
 	"runtime/pprof"
 	"sort"
@@ -445,6 +447,17 @@ func queryCtx(sp *Spec, all []*sh.Built) *sh.QueryCtx {
 				u.Classes = append(u.Classes, h)
 			}
 		}
+		// classes delivered for deployed contracts that are not in the default universe ("dd")
+		for _, h := range b.Spec.Diff.Deliv {
+			known := seenC[h]
+			for _, x := range u.Classes {
+				known = known || x == h
+			}
+			if !known {
+				seenC[h] = true
+				u.Classes = append(u.Classes, h)
+			}
+		}
 	}
 	return q
 }
@@ -583,6 +596,10 @@ func genSpec(r *hx.RNG) *genOut {
 	u := sh.DefaultUniverse()
 	cfg := sh.DefaultGenConfig(u, false)
 	cfg.ZeroNoopPct = 0 // the no-op zero write is injected explicitly (known legacy defect) in a minority of blocks
+	// 20% of the blocks that deploy contracts come with class definitions for (some of) the deployed contracts'
+	// class hashes that they do not declare (sync's fetchUnknownClasses): never declared hashes and hashes the chain
+	// knows already; Revert must remove exactly the records such a block registered (juno commit 007ff78)
+	cfg.DelivPct = 20
 	g := sh.NewGen(r, u, cfg)
 	reg := sh.NewRegistry()
 	ecfg := sh.DefaultExtrasConfig()
@@ -594,6 +611,10 @@ func genSpec(r *hx.RNG) *genOut {
 	// a state without Sierra classes is the bare contracts root there), so storing / reverting the first 0.14.0 block
 	// crosses the formula change
 	cross, height := 0, 0
+	// class hashes fork A delivered for its deployed contracts; fork B re-delivers one of them in 40% of its deploying
+	// blocks (a record that survived the revert of fork A would keep fork A's declared-at height and definition)
+	var delivA []string
+	inB := false
 	mk := func(zeroNoopPct int) *sh.BlockSpec {
 		pre := height < cross
 		height++
@@ -607,6 +628,31 @@ func genSpec(r *hx.RNG) *genOut {
 			return spec
 		}
 		spec, _ := g.NextStore(false)
+		if inB && len(delivA) > 0 && len(spec.Diff.Deploy) > 0 && r.Chance(40) {
+			h := delivA[r.Intn(len(delivA))]
+			free := true
+			for _, x := range append(append([]string{}, spec.Diff.Decl...), spec.Diff.Deliv...) {
+				free = free && x != h
+			}
+			if free {
+				spec.Diff.Deploy[r.Intn(len(spec.Diff.Deploy))].V = h
+				// the re-pointed deployment may have been the only user of a delivered class
+				var keep []string
+				for _, x := range spec.Diff.Deliv {
+					for _, e := range spec.Diff.Deploy {
+						if e.V == x {
+							keep = append(keep, x)
+							break
+						}
+					}
+				}
+				spec.Diff.Deliv = append(keep, h)
+				out.labels = append(out.labels, "shape:same-class-delivered-on-both-forks")
+			}
+		}
+		if !inB {
+			delivA = append(delivA, spec.Diff.Deliv...)
+		}
 		out.labels = append(out.labels, g.Cur().Kinds(&spec.Diff)...)
 		ecfg.ZeroNoopPct, ecfg.PreV014 = zeroNoopPct, pre
 		out.labels = append(out.labels, sh.AddExtras(r, g, reg, ecfg, spec)...)
@@ -632,9 +678,11 @@ func genSpec(r *hx.RNG) *genOut {
 		out.sp.P = append(out.sp.P, mk(6))
 	}
 	regP := reg.Clone()
+	delivA = nil // only what fork A itself delivers counts
 	for i := 0; i < nA; i++ {
 		out.sp.A = append(out.sp.A, mk(13))
 	}
+	inB = true
 	for i := 0; i < nA; i++ {
 		g.Pop()
 	}
@@ -720,7 +768,12 @@ func shrink(ar *sh.Arena, or *hx.Oracle, sp *Spec, class string) *Spec {
 				try(func(b *sh.BlockSpec) bool { ok := len(b.Diff.Nonce) > 1; b.Diff.Nonce = nil; return ok })
 				try(func(b *sh.BlockSpec) bool { ok := len(b.Diff.Decl) > 1; b.Diff.Decl = nil; return ok })
 				try(func(b *sh.BlockSpec) bool { ok := len(b.Diff.Replace) > 1; b.Diff.Replace = nil; return ok })
-				try(func(b *sh.BlockSpec) bool { ok := len(b.Diff.Deploy) > 1; b.Diff.Deploy = nil; return ok })
+				try(func(b *sh.BlockSpec) bool { ok := len(b.Diff.Deliv) > 1; b.Diff.Deliv = nil; return ok })
+				try(func(b *sh.BlockSpec) bool {
+					ok := len(b.Diff.Deploy) > 1
+					b.Diff.Deploy, b.Diff.Deliv = nil, nil
+					return ok
+				})
 				try(func(b *sh.BlockSpec) bool { ok := len(b.Txs) > 0; b.Txs = nil; return ok })
 				try(func(b *sh.BlockSpec) bool { ok := len(b.L1) > 0; b.L1 = nil; return ok })
 				try(func(b *sh.BlockSpec) bool { ok := len(b.Migrate) > 0; b.Migrate = nil; return ok })
@@ -836,6 +889,20 @@ func main() {
 			jobs = append(jobs, &job{idx: len(jobs), gen: g})
 		}
 	}
+	// corpus: recorded minimal experiments (regressions of repaired defects, e.g. the classes delivered for deployed
+	// contracts that survived RevertHead before juno commit 007ff78): they run on every invocation and must pass
+	if files, _ := filepath.Glob("/verif/corpus/C04/*.json"); len(files) > 0 {
+		sort.Strings(files)
+		for _, f := range files {
+			var w struct {
+				Replay Spec `json:"replay"`
+			}
+			b, err := os.ReadFile(f)
+			hx.Must(err)
+			hx.Must(json.Unmarshal(b, &w))
+			jobs = append(jobs, &job{idx: len(jobs), gen: &genOut{sp: &w.Replay, labels: []string{"corpus"}}})
+		}
+	}
 	// the window-edge history runs beside the worker pool (it is two long sequential chains)
 	edgeDone := make(chan struct{})
 	var edgeOuts []edgeOut
@@ -929,6 +996,7 @@ func main() {
 	pprof.StopCPUProfile()
 	c.Finish("fork experiments per state backend: prefix P (0..4 blocks), fork A (1..4 blocks) stored and reverted block by block, fork B (0..4 blocks); 25% single block stored+reverted, 10% forks from genesis; " +
 		"blocks carry deployments, replacements, nonces, writes (incl. zero-over-nonzero, same value; zero to an absent slot injected in 13% of fork-A blocks), Cairo0 and Sierra declarations, CASM migrations (0.14.1 blocks), " +
+		"class definitions DELIVERED for the block's deployed contracts without being declared (20% of the deploying blocks; hashes never declared and hashes the chain knows already; 40% of fork B's deploying blocks re-deliver a hash fork A delivered), " +
 		"invoke transactions with events, L1-handler transactions, system-contract writes (22% of the blocks; 30% of them try a zero write: over a non-zero slot - which may empty the contract - else one time in three to a zero slot / a missing contract), empty blocks; node A (P, A, reverts, B) is compared with node B (P, B) on every Reader query over all numbers / block / tx / L1-message hashes ever produced, " +
 		"the state readers (class hash, nonce, slots, declared-at, compiled class hash of every Sierra class - by number, by hash, at head; system contracts 0x1/0x2 included), the event filter and the raw database; node A's op sequence runs through C04.Model (outcomes, 13 decoded index families incl. the system contracts' entries and the full CASM metadata); non-trivial = fork depth >= 2 or a feature beyond plain writes. " +
 		"Plus the window-edge family (harness only, the filter cache is not modelled): chain of cheap event blocks to head 8191/8192/8193, events queries on node A (caches the persisted aggregated bloom window), 1..3 reverts crossing block 8191 with a query after each, fork B with other emitters/keys, " +
